@@ -8,7 +8,7 @@
    (which arrays are written, what the caller's slices hold afterwards).
    Statements only; the proofs are in Proofs/GoIR.v and Proofs/GoSrcPB.v. *)
 From Coq Require Import List ZArith Bool String.
-From GS Require Import Spec.Base Spec.PB Model.PBNorm Model.GoIR Gen.GoSrc Proofs.GoIR Proofs.GoSrcPB.
+From GS Require Import Spec.Base Spec.PB Model.PBNorm Model.GoIR Gen.GoSrc Proofs.GoIR Proofs.GoSrcPB Proofs.GoSrcPBSem.
 Import ListNotations.
 Open Scope string_scope.
 Open Scope list_scope.
@@ -220,6 +220,40 @@ Proof. exact Eq_panics. Qed.
 Print Assumptions C02g_Eq_panics.
 
 (* ------------------------------------------------------------------ the hypotheses are satisfiable, the runs concrete *)
+
+(* ------------------------------------------------------------------ what the executed source MEANS
+   (the refinements above composed with C02_gteq / C02_lteq / C02_eq): for any literals over distinct variables and as many
+   weights of either sign, the constraint(s) the regenerated source of GtEq / LtEq / Eq returns hold under an assignment
+   exactly when the weighted sum is >= n / <= n / = n *)
+Theorem C02g_GtEq_meaning : forall h vl vw ls ws n,
+  int_slice h vl ls -> int_slice h vw ws -> disjoint_vals vl vw ->
+  ws <> [] -> length ls = length ws -> wf_clause ls ->
+  exists fuel v h' g,
+    run go_funs fuel "GtEq" [vl; vw; VInt n] h = OReturn v h' /\
+    gopb_of_rval (readback h' v) = Some g /\
+    forall m : model, sat_pbc m (pbc_of_gopb g) = sat_uc m (UC (combine ws ls) PB.Ge n).
+Proof. exact GtEq_src_meaning. Qed.
+Print Assumptions C02g_GtEq_meaning.
+
+Theorem C02g_LtEq_meaning : forall h vl vw ls ws n,
+  int_slice h vl ls -> int_slice h vw ws -> disjoint_vals vl vw ->
+  ws <> [] -> length ls = length ws -> wf_clause ls ->
+  exists fuel v h' g,
+    run go_funs fuel "LtEq" [vl; vw; VInt n] h = OReturn v h' /\
+    gopb_of_rval (readback h' v) = Some g /\
+    forall m : model, sat_pbc m (pbc_of_gopb g) = sat_uc m (UC (combine ws ls) PB.Le n).
+Proof. exact LtEq_src_meaning. Qed.
+Print Assumptions C02g_LtEq_meaning.
+
+Theorem C02g_Eq_meaning : forall h vl vw ls ws n,
+  int_slice h vl ls -> int_slice h vw ws -> disjoint_vals vl vw ->
+  ws <> [] -> length ls = length ws -> wf_clause ls ->
+  exists fuel v h' gs,
+    run go_funs fuel "Eq" [vl; vw; VInt n] h = OReturn v h' /\
+    gopbs_of_rval (readback h' v) = Some gs /\
+    forall m : model, forallb (fun g => sat_pbc m (pbc_of_gopb g)) gs = sat_uc m (UC (combine ws ls) PB.Eq n).
+Proof. exact Eq_src_meaning. Qed.
+Print Assumptions C02g_Eq_meaning.
 
 Example C02g_hyps :
   let h := [[1; 2; 3]; [2; -3; 0]] in
